@@ -14,6 +14,8 @@ import (
 	"sort"
 	"strconv"
 	"strings"
+	"sync"
+	"sync/atomic"
 	"syscall"
 	"time"
 	"unsafe"
@@ -124,7 +126,12 @@ func kindOf(m fs.FileMode) string {
 	return "?"
 }
 
+type pauseSpec struct {
+	a, k, b int
+}
+
 type t2case struct {
+	pause  *pauseSpec
 	direct *directFS
 	id     string
 	cfg    map[string]string
@@ -165,6 +172,12 @@ func readCases(path string) ([]*t2case, error) {
 			cur.faults = append(cur.faults, faultSpec{w[1], w[2], dec(w[3]), occ})
 		case "CRASH":
 			cur.crash, _ = strconv.Atoi(w[1])
+		case "PAUSE":
+			// PAUSE <op index A> <k> THEN <op index B>
+			a, _ := strconv.Atoi(w[1])
+			k, _ := strconv.Atoi(w[2])
+			b, _ := strconv.Atoi(w[4])
+			cur.pause = &pauseSpec{a, k, b}
 		case "OP":
 			cur.ops = append(cur.ops, w[1:])
 		case "END":
@@ -777,6 +790,13 @@ func runCase(c *t2case, w *bufio.Writer) (err error) {
 			dumpMap(w, strconv.Itoa(i), b)
 			continue
 		}
+		if c.pause != nil && i == c.pause.b {
+			continue // executed concurrently with operation A
+		}
+		if c.pause != nil && i == c.pause.a {
+			runPaused(c, rec, &b, w)
+			continue
+		}
 		func() {
 			defer func() {
 				if r := recover(); r != nil {
@@ -831,4 +851,73 @@ func runT2(in, out string) error {
 		}
 	}
 	return nil
+}
+
+
+// runPaused starts operation A, holds it at its k-th primitive call, starts
+// operation B meanwhile and watches whether B makes progress while A is held.
+func runPaused(c *t2case, rec *recorder, bp **backupfs.BackupFS, w *bufio.Writer) {
+	ps := c.pause
+	paused := make(chan struct{})
+	resume := make(chan struct{})
+	var once sync.Once
+	rec.mu.Lock()
+	start := rec.ticks
+	rec.mu.Unlock()
+	var holdTick int32 = -1
+	rec.onCall = func(tag, meth, path string, tick int) {
+		if tick-start == ps.k && atomic.CompareAndSwapInt32(&holdTick, -1, int32(tick)) {
+			once.Do(func() { close(paused) })
+			<-resume
+		}
+	}
+	var resA, resB opResult
+	doneA := make(chan struct{})
+	doneB := make(chan struct{})
+	go func() { resA = execOp(bp, c, rec, c.ops[ps.a]); close(doneA) }()
+	wasPaused := false
+	select {
+	case <-paused:
+		wasPaused = true
+	case <-doneA:
+	}
+	rec.mu.Lock()
+	if !wasPaused {
+		rec.onCall = nil // A finished before its k-th call: nobody must be held any more
+	}
+	t0 := rec.ticks
+	rec.mu.Unlock()
+	go func() { resB = execOp(bp, c, rec, c.ops[ps.b]); close(doneB) }()
+	bDone := false
+	bTicks := 0
+	held := false
+	if wasPaused {
+		held = backupfs.VerifMuLocked(*bp) // is A inside its critical section at this call?
+		select {
+		case <-doneB:
+			bDone = true
+		case <-time.After(25 * time.Millisecond):
+		}
+		rec.mu.Lock()
+		bTicks = rec.ticks - t0
+		rec.onCall = nil
+		rec.mu.Unlock()
+		close(resume)
+	}
+	<-doneA
+	<-doneB
+	fmt.Fprintf(w, "P %d %d paused=%v held=%v b_ticks=%d b_done=%v locked=%v\n", ps.a, ps.k, wasPaused, held, bTicks, bDone, backupfs.VerifMuLocked(*bp))
+	pr := func(i int, res opResult) {
+		switch {
+		case res.err != nil:
+			fmt.Fprintf(w, "R %d err:%s\n", i, errClassX(res.err))
+		case res.data != "":
+			fmt.Fprintf(w, "R %d ok %s\n", i, res.data)
+		default:
+			fmt.Fprintf(w, "R %d ok\n", i)
+		}
+	}
+	pr(ps.a, resA)
+	pr(ps.b, resB)
+	rec.take()
 }
